@@ -550,6 +550,14 @@ impl<'a, 'b> Gen<'a, 'b> {
     pub fn delay_control(&mut self) {
         self.tag("delay");
         self.sym("#");
+        if self.t.chance(1, 8) {
+            // delay_value ::= ps_identifier with a package scope
+            self.tag("delay-package-scoped");
+            self.id("some_pkg");
+            self.sym("::");
+            self.id("dly_c");
+            return;
+        }
         match self.t.below(4) {
             0 => {
                 let s = *self.t.pick(&["1", "10", "2.5", "1ns"]);
